@@ -214,7 +214,7 @@ def _solution(dev_name, fu):
     import atexit
     import shutil
 
-    d = tempfile.mkdtemp(prefix="c20-", dir=os.environ.get("TMPDIR", "/tmp"))
+    d = tempfile.mkdtemp(prefix=f"c20-{os.environ.get('VERIF_RUN_TAG', 'x')}-", dir=os.environ.get("TMPDIR", "/tmp"))
     atexit.register(shutil.rmtree, d, True)
     if dev_name == "tinyT":
         base = drivers.tiny(2, terminals=True)
